@@ -147,9 +147,21 @@ def run_check(args):
                 best = cand
         violations.append(best)
 
-    # --- verdict ------------------------------------------------------------------------------------
+    # --- bounded stand-ins (never counted as proved) ----------------------------------------------------
+    bounded = run_bounded(prop, tier, seed)
     lines = []
     n_viol = 0
+    for b in bounded:
+        for f in b["failed"][:1]:
+            os.makedirs(replay_dir, exist_ok=True)
+            h = hashlib.sha256(json.dumps([b["contract"], f.get("index")], default=str).encode()).hexdigest()[:12]
+            path = os.path.join(replay_dir, f"bounded_{h}.json")
+            with open(path, "w") as fh:
+                json.dump(dict(property=prop, contract=b["contract"], obligation="bounded-check", kind="bounded", bounded_index=f.get("index"), tier=tier, seed=seed, sample=f.get("sample"), observed=f.get("observed"), how_to_run=f"cd {HERE} && ./check {prop} --replay <this file>"), fh, indent=1, default=str)
+            lines.append(f"VIOLATION property={prop} replay={path}")
+            lines.append(f"  bounded check of {b['contract']} fails on the real code: sample {json.dumps(f.get('sample'), default=str)[:300]}: {json.dumps(f.get('observed'), default=str)[:500]}")
+            n_viol += 1
+    # --- verdict ------------------------------------------------------------------------------------
     n_undecided_fail = 0
     for v in violations:
         if v["status"] == "reproduced":
@@ -194,7 +206,7 @@ def run_check(args):
 
     # --- evidence -----------------------------------------------------------------------------------
     if not args.no_evidence and not args.only:
-        write_evidence(prop, tier, seed, roots, seen, results, obl, n_obl, n_dis, violations, known_lines, undecided, unknown_obl, missing, n_replayed, n_slice_cases, reach, time.time() - t0, rc)
+        write_evidence(prop, tier, seed, roots, seen, results, obl, n_obl, n_dis, violations, known_lines, undecided, unknown_obl, missing, n_replayed, n_slice_cases, reach, time.time() - t0, rc, bounded)
     if getattr(args, "update_lock", False) and rc == 0:
         lock_all[prop] = sorted(k for k, o in obl.items() if o["discharged"] == o["instances"])
         with open(LOCK_FILE, "w") as f:
@@ -203,7 +215,18 @@ def run_check(args):
     return rc
 
 
-def write_evidence(prop, tier, seed, roots, seen, results, obl, n_obl, n_dis, violations, known_lines, undecided, unknown_obl, missing, n_replayed, n_slice_cases, reach, wall, rc):
+def run_bounded(prop, tier, seed):
+    import subprocess
+
+    env = dict(os.environ, PYTHONPATH=HERE)
+    try:
+        r = subprocess.run([sys.executable, "-W", "ignore", "-m", "pyvc.bounded", prop, "--tier", tier, "--seed", str(seed)], capture_output=True, text=True, cwd=HERE, env=env, timeout=1500)
+        return json.loads(r.stdout.strip().splitlines()[-1])["bounded"]
+    except Exception as e:  # pylint: disable=broad-except
+        return [dict(contract="<bounded runner>", bound="", cases=0, failed=[dict(index=None, sample="", observed=dict(error=f"{type(e).__name__}: {e}"))], wall=0)]
+
+
+def write_evidence(prop, tier, seed, roots, seen, results, obl, n_obl, n_dis, violations, known_lines, undecided, unknown_obl, missing, n_replayed, n_slice_cases, reach, wall, rc, bounded=()):
     from pyvc import npmodel, shadow
     from pyvc.contract import CONTRACTS
 
@@ -257,7 +280,7 @@ def write_evidence(prop, tier, seed, roots, seen, results, obl, n_obl, n_dis, vi
         seed=seed,
         level="proof",
         wall_s=round(wall, 2),
-        violations=sum(1 for v in violations if v and (v["status"] == "reproduced")),
+        violations=sum(1 for v in violations if v and (v["status"] == "reproduced")) + sum(1 for b in bounded if b["failed"]),
         coverage=dict(
             obligations=n_obl,
             discharged=n_dis,
@@ -280,6 +303,7 @@ def write_evidence(prop, tier, seed, roots, seen, results, obl, n_obl, n_dis, vi
             py_slice_bounds_selftest_cases=n_slice_cases,
             exit_code=rc,
             instrumented_loops=shadow.INSTRUMENTED_LOOPS,
+            bounded_checks=[dict(contract=b["contract"], bound=b["bound"], cases=b["cases"], passed=not b["failed"], wall_s=b["wall"], label="BOUNDED stand-in: native evaluation of the contract on an enumerated input set; not a proof, not counted in obligations/discharged") for b in bounded],
         ),
         assumptions=[
             "A1: floats are mathematical reals",
